@@ -2,6 +2,7 @@ package p19
 
 import (
 	"fmt"
+	"os"
 	"math/big"
 	"strings"
 
@@ -25,7 +26,7 @@ func (P) Generate(g *core.Gen) {
 	genEp(g)
 	if g.Thorough() {
 		for _, l := range bigVectors {
-			g.Case("vec-big", true, l)
+			kase(g, "vec-big", true, l)
 		}
 	}
 }
@@ -83,9 +84,9 @@ func genEllswift(g *core.Gen) {
 				t, cls = s.Text(16), "xswift-double-t"
 			}
 		}
-		g.Case(cls, true, "C19 xswift "+u+" "+t)
+		kase(g, cls, true, "C19 xswift "+u+" "+t)
 	}
-	for i := 0; i < g.N(250, 8000); i++ {
+	for i := 0; i < g.N(150, 8000); i++ {
 		u, x := hx(r.Bytes(32)), randCurveX(r)
 		cls := "xswiftinv"
 		switch r.Intn(8) {
@@ -97,7 +98,7 @@ func genEllswift(g *core.Gen) {
 			u, cls = x, "xswiftinv-u-eq-x"
 		}
 		for c := 0; c < 8; c++ {
-			g.Case(cls, true, fmt.Sprintf("C19 xswiftinv %s %s %d", u, x, c))
+			kase(g, cls, true, fmt.Sprintf("C19 xswiftinv %s %s %d", u, x, c))
 		}
 	}
 	for i := 0; i < g.N(60, 3000); i++ {
@@ -109,7 +110,7 @@ func genEllswift(g *core.Gen) {
 		if r.Chance(1, 4) {
 			copy(ellT[r.Intn(2)*32:], unhx(fmt.Sprintf("%064s", edgeField(r)))[:32])
 		}
-		g.Case("ecdh", true, fmt.Sprintf("C19 ecdh %s %s %s %d", priv, hx(ellT), hx(ellO), r.Intn(2)))
+		kase(g, "ecdh", true, fmt.Sprintf("C19 ecdh %s %s %s %d", priv, hx(ellT), hx(ellO), r.Intn(2)))
 	}
 	for i := 0; i < g.N(60, 3000); i++ {
 		pre := "-"
@@ -117,14 +118,14 @@ func genEllswift(g *core.Gen) {
 			// private key >= n (reduced by btcec), u >= p
 			pre = strings.Repeat("f", 64) + strings.Repeat("f", 64) + "07"
 		}
-		g.Case("create", true, "C19 create "+pre+" "+hx(r.Bytes(16)))
+		kase(g, "create", true, "C19 create "+pre+" "+hx(r.Bytes(16)))
 	}
 }
 
 func genSched(g *core.Gen) {
 	r := g.R
 	for i := 0; i < g.N(60, 2000); i++ {
-		g.Case("sched", true, fmt.Sprintf("C19 sched %s %s %d", hx(r.Bytes(32)), pickMagic(r), r.Intn(2)))
+		kase(g, "sched", true, fmt.Sprintf("C19 sched %s %s %d", hx(r.Bytes(32)), pickMagic(r), r.Intn(2)))
 	}
 }
 
@@ -268,11 +269,11 @@ func genPk(g *core.Gen) {
 	for i := 0; i < g.N(24, 300); i++ {
 		n := int(r.Pick(1, 5, 223, 224, 225, 230, 448, 449, 700, 900)) + r.Intn(3)
 		ps := randPkts(r, n, g.N(20000, 200000), r.Chance(1, 3))
-		g.Case("pk-stream", true, pkLine(r.Bytes(32), pickMagic(r), r.Intn(2), ps, "-", recvPlan(ps, r.Intn(2))))
+		kase(g, "pk-stream", true, pkLine(r.Bytes(32), pickMagic(r), r.Intn(2), ps, "-", recvPlan(ps, r.Intn(2))))
 	}
 	for i := 0; i < g.N(200, 3000); i++ {
 		ps := randPkts(r, 1+r.Intn(6), 0, r.Chance(1, 2))
-		g.Case("pk-short", true, pkLine(r.Bytes(32), pickMagic(r), r.Intn(2), ps, "-", recvPlan(ps, r.Intn(2))))
+		kase(g, "pk-short", true, pkLine(r.Bytes(32), pickMagic(r), r.Intn(2), ps, "-", recvPlan(ps, r.Intn(2))))
 	}
 	// size sweep
 	sizes := []int{0, 1, 2, 3, 4094, 4095, 4096, 65535, 65536, 65537, 100000}
@@ -281,7 +282,7 @@ func genPk(g *core.Gen) {
 	}
 	for _, sz := range sizes {
 		ps := []pkt{{ln: sz, seed: r.Intn(256), ign: r.Bool()}, {ln: 5, seed: 1}}
-		g.Case("pk-size", true, pkLine(r.Bytes(32), pickMagic(r), r.Intn(2), ps, "-", recvPlan(ps, 0)))
+		kase(g, "pk-size", true, pkLine(r.Bytes(32), pickMagic(r), r.Intn(2), ps, "-", recvPlan(ps, 0)))
 	}
 	// wrong AAD on the first packet
 	for i := 0; i < g.N(60, 1000); i++ {
@@ -292,7 +293,7 @@ func genPk(g *core.Gen) {
 			continue
 		}
 		rp[0] = fmt.Sprintf("%d:%d", int(r.Pick(0, 1, 16, int64(ps[0].aad))), r.Intn(256))
-		g.Case("pk-wrong-aad", true, pkLine(r.Bytes(32), pickMagic(r), r.Intn(2), ps, "-", strings.Join(rp, ";")))
+		kase(g, "pk-wrong-aad", true, pkLine(r.Bytes(32), pickMagic(r), r.Intn(2), ps, "-", strings.Join(rp, ";")))
 	}
 	// corruption campaign: every single-byte position of a 3-packet stream, then random ops
 	for i := 0; i < g.N(2, 20); i++ {
@@ -306,13 +307,13 @@ func genPk(g *core.Gen) {
 			total += p.wireLen()
 		}
 		for off := 0; off < total; off++ {
-			g.Case("pk-flip-every-byte", true, pkLine(sec, magic, ini, ps, fmt.Sprintf("f%d:%d", off, 1<<r.Intn(8)), recvPlan(ps, 0)))
+			kase(g, "pk-flip-every-byte", true, pkLine(sec, magic, ini, ps, fmt.Sprintf("f%d:%d", off, 1<<r.Intn(8)), recvPlan(ps, 0)))
 		}
 		for off := 0; off <= total; off++ {
-			g.Case("pk-truncate-every", true, pkLine(sec, magic, ini, ps, fmt.Sprintf("t%d", off), recvPlan(ps, 0)))
+			kase(g, "pk-truncate-every", true, pkLine(sec, magic, ini, ps, fmt.Sprintf("t%d", off), recvPlan(ps, 0)))
 		}
 	}
-	for i := 0; i < g.N(1500, 40000); i++ {
+	for i := 0; i < g.N(1000, 40000); i++ {
 		n := 1 + r.Intn(6)
 		if r.Chance(1, 30) {
 			n = 222 + r.Intn(6) // tampering around a rekey boundary
@@ -324,7 +325,7 @@ func genPk(g *core.Gen) {
 			}
 		}
 		cls, op := tamperOp(r, ps)
-		g.Case("pk-"+cls, true, pkLine(r.Bytes(32), pickMagic(r), r.Intn(2), ps, op, recvPlan(ps, r.Intn(2))))
+		kase(g, "pk-"+cls, true, pkLine(r.Bytes(32), pickMagic(r), r.Intn(2), ps, op, recvPlan(ps, r.Intn(2))))
 	}
 }
 
@@ -435,8 +436,8 @@ func genEp(g *core.Gen) {
 		return s
 	}
 	emit := func(cls string, s sess) {
-		g.Case(cls+"-initiator", true, s.a.line(s.wb, append(sendActs(s.pa), recvActs(s.pb, r.Intn(2))...)))
-		g.Case(cls+"-responder", true, s.b.line(s.wa, append(sendActs(s.pb), recvActs(s.pa, r.Intn(2))...)))
+		kase(g, cls+"-initiator", true, s.a.line(s.wb, append(sendActs(s.pa), recvActs(s.pb, r.Intn(2))...)))
+		kase(g, cls+"-responder", true, s.b.line(s.wa, append(sendActs(s.pb), recvActs(s.pa, r.Intn(2))...)))
 	}
 	// garbage-length grid {0,1,4094,4095} x {0,1,4094,4095}
 	grid := []int{0, 1, 4094, 4095}
@@ -458,15 +459,15 @@ func genEp(g *core.Gen) {
 	for _, gl := range []int{4096, 5000} {
 		c := randEp(r, "i", pickMagic(r))
 		c.gLen = gl
-		g.Case("ep-garbage-too-large", true, c.line(r.Bytes(200), nil))
+		kase(g, "ep-garbage-too-large", true, c.line(r.Bytes(200), nil))
 		c.role = "r"
-		g.Case("ep-garbage-too-large", true, c.line(r.Bytes(200), nil))
+		kase(g, "ep-garbage-too-large", true, c.line(r.Bytes(200), nil))
 	}
 	// short / empty inputs
 	for i := 0; i < g.N(8, 100); i++ {
 		c := randEp(r, []string{"i", "r"}[r.Intn(2)], pickMagic(r))
 		n := int(r.Pick(0, 1, 15, 16, 17, 63, 64, 65, 79, 80, 81))
-		g.Case("ep-short-input", true, c.line(r.Bytes(n), nil))
+		kase(g, "ep-short-input", true, c.line(r.Bytes(n), nil))
 	}
 	// v1 detection on the responder
 	for i := 0; i < g.N(24, 300); i++ {
@@ -488,7 +489,7 @@ func genEp(g *core.Gen) {
 			inp = inp[:r.Intn(16)]
 			cls = "ep-v1-short"
 		}
-		g.Case(cls, true, c.line(inp, nil))
+		kase(g, cls, true, c.line(inp, nil))
 	}
 	// tampering with the handshake part of the input stream
 	for i := 0; i < g.N(6, 120); i++ {
@@ -524,7 +525,7 @@ func genEp(g *core.Gen) {
 			k := g.N(4, len(ops))
 			for j := 0; j < k && len(ops) > 0; j++ {
 				x := r.Intn(len(ops))
-				g.Case("ep-"+ops[x][0], true, me.line(tamper(inp, ops[x][1]), acts))
+				kase(g, "ep-"+ops[x][0], true, me.line(tamper(inp, ops[x][1]), acts))
 				ops = append(ops[:x], ops[x+1:]...)
 			}
 		}
@@ -538,7 +539,19 @@ func genEp(g *core.Gen) {
 			lo, hi = 64+3-2, 64+3+16+6
 		}
 		for off := lo; off < hi; off++ {
-			g.Case("ep-flip-window", true, s.a.line(tamper(s.wb, fmt.Sprintf("f%d:%d", off, 1<<r.Intn(8))), acts))
+			kase(g, "ep-flip-window", true, s.a.line(tamper(s.wb, fmt.Sprintf("f%d:%d", off, 1<<r.Intn(8))), acts))
 		}
 	}
+}
+
+// kase records a case; with VERIF_C19_DUMP=<file> the generated lines are also
+// written there as "class<TAB>line" (debugging / corpus extraction).
+func kase(g *core.Gen, class string, nontrivial bool, line string) {
+	if f := os.Getenv("VERIF_C19_DUMP"); f != "" {
+		if fh, err := os.OpenFile(f, os.O_APPEND|os.O_CREATE|os.O_WRONLY, 0o644); err == nil {
+			fmt.Fprintf(fh, "%s\t%s\n", class, line)
+			fh.Close()
+		}
+	}
+	g.Case(class, nontrivial, line)
 }
